@@ -56,7 +56,7 @@ func corruptFile(w *World, op *Op) {
 	case "prefix":
 		out = append(w.opBytes(op), out...)
 	case "crlf":
-		out = bytes.ReplaceAll(out, []byte("\n"), []byte("\r\n"))
+		out = bytes.ReplaceAll(bytes.ReplaceAll(out, []byte("\r\n"), []byte("\n")), []byte("\n"), []byte("\r\n"))
 	case "hash-only":
 		// a hash line without newline at the end of the file, optionally followed by nothing else
 		out = []byte("#HASH:" + b64(r.Bytes(20)))
